@@ -149,6 +149,8 @@ def _bounded(prefix, script, module, tier, seed, nshards):
 
 def run(pid, tier, seed, world):
     out = []
+    if pid == 'C20':
+        out += _bounded('bounded.mibcopy', 'c20_mibcopy.py', 'c20_mibcopy', tier, seed, 8)
     if pid == 'C14':
         out += _bounded('bounded.ZipReader', 'c14_zipreader.py', 'c14_zipreader', tier, seed, 4 if tier == 'thorough' else 1)
         out += _bounded('bounded.readers', 'c14_filereader.py', 'c14_filereader', tier, seed, 8 if tier == 'thorough' else 2)
